@@ -34,6 +34,7 @@ import NeoModel.Proofs.DbftSimX
 import NeoModel.Proofs.DbftStuck
 import NeoModel.Proofs.DbftProposalX
 import NeoModel.Proofs.DbftTimedExec
+import NeoModel.Proofs.DbftEpochBlock
 namespace NeoModel.Dbft
 
 /-! ### 1. Agreement -/
@@ -511,5 +512,59 @@ example : Timed.ClocksOk { n := 4 } 15 1 100 1
   refine ⟨by decide, fun k hk => ?_⟩
   have : k = 0 ∨ k = 1 ∨ k = 2 ∨ k = 3 := by simp at hk; omega
   rcases this with rfl | rfl | rfl | rfl <;> decide
+
+/-! ### 10. Validator epochs (Model/DbftEpoch.lean)
+
+The keys that run the consensus for block h+1 are a function of the ledger of height h (`GetNextBlockValidators`:
+the NEO contract's `nextValidators`, switched to `newEpochNextValidators` when a block with index ≡ 0 mod
+committee size is persisted; `newEpochNextValidators` is recomputed from votes and `GetNumOfCNs` when the last block of
+an epoch is persisted). `service.newBlockFromContext` fills NextConsensus of block h+1 with the address of
+`ComputeNextBlockValidators` on the ledger of height h. -/
+
+/-- C19 (validator epochs): on every history — whatever is elected at the boundaries, however the NUMBER of validators
+changes — the NextConsensus field of block h+1 names exactly the keys dBFT runs block h+2 with. -/
+theorem next_consensus_names_next_signers {σ : Type} (committee : Nat) (g : σ) (elect : Nat → σ) (h : Nat) :
+    Epoch.signers committee g elect (h + 1) = Epoch.nextConsensus committee g elect h :=
+  Epoch.nextConsensus_names_signers committee g elect h
+
+/-- so a chain made by the services passes the ledger's witness check (`verifyHeader`: the witness of block h+1 against
+NextConsensus of block h) at every height -/
+theorem consensus_chain_passes_witness_check {σ : Type} (committee : Nat) (g : σ) (elect : Nat → σ) (upTo : Nat) :
+    Epoch.ChainOK g (fun h => Epoch.signers committee g elect (h - 1))
+      (fun h => Epoch.nextConsensus committee g elect (h - 1)) upTo :=
+  Epoch.consensus_chain_ok committee g elect upTo
+
+/-- C19 + C06 over histories where the validator set changes: `committed_block_passes_addBlock` with the hypothesis "the
+witness verifies for the previous block's consensus address" DERIVED. If every backup's verification callback answers
+true only on proposals for which `Epoch.AnsweredAt` holds at ledger height `ht` (the tip carries the NextConsensus the
+rule gave it, the assembled block is multi-signed by `GetNextBlockValidators` of that ledger and carries the rule's
+NextConsensus itself), then every block on a validator's chain passes `AddBlock` on `t'`, and the new tip satisfies the
+tip hypothesis for height `ht + 1`. -/
+theorem committed_block_passes_addBlock_epochs {L σ : Type} (c : Cfg) (hm : 2 ≤ c.m) (s : State) (hr : Reachable c s)
+    (i : Nat) (b : Block) (hb : b ∈ (s.nodes i).chain)
+    (env : AddBlock.Env L) (t' : AddBlock.Node L) (blk : AddBlock.Block)
+    (addr : σ → Nat) (committee : Nat) (g : σ) (elect : Nat → σ) (ht : Nat)
+    (hverify : ∀ j, c.verify j b = true → Epoch.AnsweredAt env t' blk addr committee g elect ht) :
+    (AddBlock.addBlock env t' blk).2 = none ∧
+    blk.hdr.nextConsensus = addr (Epoch.tipNC committee g elect (ht + 1)) := by
+  have hn : 0 < c.n := by unfold Cfg.m at hm; omega
+  obtain ⟨_, hp, hck, _⟩ := committed_block_valid c hn s hr i b hb
+  obtain ⟨j, _, hne, hj⟩ := countP_other c.n (c.primary b.h b.v) _ (Nat.le_trans hm hp)
+  simp only [preparedBy, decide_eq_true_eq] at hj
+  exact Epoch.AnsweredAt.accepted env t' blk addr committee g elect ht (hverify j ((hck j hj).2 hne))
+
+/-- regression for seeded change C19-m6 (NextConsensus from the CURRENT validators unless the block after the one being
+made starts an epoch — off by one): in the README scenario block 7 names the old keys, block 8 is signed by the new
+ones, the chain of headers fails the witness check; the rule differs from the code's only at boundaries where the
+set changes. -/
+theorem next_consensus_m6_regression :
+    Epoch.nextConsensusM6 7 4 Epoch.exElect 6 = 4 ∧ Epoch.signers 7 4 Epoch.exElect 7 = 7 ∧
+    ¬ Epoch.ChainOK 4 (fun h => Epoch.signers 7 4 Epoch.exElect (h - 1))
+        (fun h => Epoch.nextConsensusM6 7 4 Epoch.exElect (h - 1)) 8 :=
+  Epoch.m6_rule_breaks_chain
+
+-- non-vacuity of the scenario: 4 keys up to block 7, 7 keys from block 8, 4 again from block 15
+example : (List.range 17).map (Epoch.signers 7 4 (fun h => if h < 7 then 4 else if h < 14 then 7 else 4)) =
+    [4, 4, 4, 4, 4, 4, 4, 7, 7, 7, 7, 7, 7, 7, 4, 4, 4] := by decide
 
 end NeoModel.Dbft
